@@ -124,7 +124,7 @@ func (v *PolicyVerifier) VerifyRefFull(ctx context.Context, target string) (gith
 	}
 
 	slog.Debug("Verifying all entries...")
-	return latestEntry.GetTargetID(), v.VerifyRelativeForRef(ctx, firstEntry, latestEntry, target)
+	return latestEntry.GetTargetID(), v.verifyRelativeForRef(ctx, firstEntry, latestEntry, target, true)
 }
 
 // VerifyRefFromEntry performs verification for the reference from a specific
@@ -450,6 +450,14 @@ func (v *PolicyVerifier) VerifyNetwork(ctx context.Context) error {
 // VerifyRelativeForRef verifies the RSL between specified start and end entries
 // using the provided policy entry for the first entry.
 func (v *PolicyVerifier) VerifyRelativeForRef(ctx context.Context, firstEntry, lastEntry rsl.ReferenceUpdaterEntry, target string) error {
+	return v.verifyRelativeForRef(ctx, firstEntry, lastEntry, target, false)
+}
+
+// verifyRelativeForRef implements VerifyRelativeForRef. The last verified
+// entry for the ref is only recorded in the persistent cache when
+// recordLastVerified is set: VerifyRefFull resumes from that entry, so it may
+// only be advanced by a verification that itself covered everything before it.
+func (v *PolicyVerifier) verifyRelativeForRef(ctx context.Context, firstEntry, lastEntry rsl.ReferenceUpdaterEntry, target string, recordLastVerified bool) error {
 	/*
 		require firstEntry != nil
 		require lastEntry != nil
@@ -601,7 +609,7 @@ func (v *PolicyVerifier) VerifyRelativeForRef(ctx context.Context, firstEntry, l
 						// Fix entry does not exist after revoking annotation
 						return verificationErr
 					}
-				} else if v.persistentCacheEnabled {
+				} else if v.persistentCacheEnabled && recordLastVerified {
 					// Verification has passed, add to cache
 					v.persistentCache.SetLastVerifiedEntryForRef(entry.GetRefName(), entry.GetNumber(), entry.GetID())
 				}
@@ -729,7 +737,7 @@ func (v *PolicyVerifier) VerifyRelativeForRef(ctx context.Context, firstEntry, l
 
 		entries = newEntryQueue
 
-		if v.persistentCacheEnabled {
+		if v.persistentCacheEnabled && recordLastVerified {
 			v.persistentCache.SetLastVerifiedEntryForRef(fixEntry.RefName, fixEntry.GetNumber(), fixEntry.GetID())
 		}
 	}
